@@ -71,7 +71,7 @@ class Binding(object):
             return self._shared_rs.setdefault(real, np.random.RandomState(real))
         return np.random.RandomState(real)
 
-    newform = 'ctor'            # 'ctor' | 'class' | 'name': how New builds the object (get_instance forms)
+    newform = 'ctor'            # 'ctor' | 'class' | 'name' | 'mixed': how New builds the object (get_instance forms; positional + keyword arguments)
 
     def _make(self, kw):
         from copulas.utils import get_instance, get_qualified_name
@@ -79,6 +79,18 @@ class Binding(object):
             return get_instance(self.cls(), **kw)
         if self.newform == 'name':
             return get_instance(get_qualified_name(self.cls()), **kw)
+        if self.newform == 'mixed':
+            # the leading constructor parameters positionally (up to the first one the configuration sets), the rest by keyword
+            import inspect
+            cls = self.cls()
+            ps = [p for p in list(inspect.signature(cls.__init__).parameters.values())[1:] if p.kind == p.POSITIONAL_OR_KEYWORD]
+            names = [p.name for p in ps]
+            set_ = [n for n in names if n in kw and n != 'random_state']
+            if set_:
+                upto = names.index(set_[0])
+                kw = dict(kw)
+                pos = [kw.pop(p.name) if p.name in kw else p.default for p in ps[:upto + 1]]
+                return cls(*pos, **kw)
         return self.cls()(**kw)
 
     def new(self, cfg, seed, form='int'):
